@@ -165,28 +165,7 @@ impl<'a> Iterator for Bits<'a> {
 //@use bitstr.fns "impl<'a> Iterator for Bits<'a>"::next
 }
 
-//@type src/bitstr.rs struct Iter8
-
-impl<'a> Iter8<'a> {
-    #[verifier::type_invariant]
-    spec fn inv(&self) -> bool {
-        self.bs.range.start <= self.pos
-    }
-    pub closed spec fn cur(&self) -> int { self.pos as int }
-    pub closed spec fn src(&self) -> &Bitstr { self.bs }
-    // the 8-bit groups still to come
-    pub closed spec fn grp(&self) -> Seq<(u8, u32)> { groups(self.bs.data@, self.pos as int, self.bs.range.end as int) }
-}
-
-impl<'a> vstd::std_specs::iter::IteratorSpecImpl for Iter8<'a> {
-    open spec fn obeys_prophetic_iter_laws(&self) -> bool { true }
-    open spec fn remaining(&self) -> Seq<(u8, u32)> { self.grp() }
-    open spec fn will_return_none(&self) -> bool { true }
-    open spec fn decrease(&self) -> Option<nat> { Some(self.grp().len()) }
-    open spec fn peek(&self, index: int) -> Option<(u8, u32)> {
-        if 0 <= index < self.grp().len() { Some(self.grp()[index]) } else { None }
-    }
-}
+//@include preamble/iter8_types.rs
 
 impl<'a> Iterator for Iter8<'a> {
     type Item = (u8, u32);
